@@ -638,8 +638,12 @@ func (c *Ctx) typeErrorsConfined(fn *ssa.Function) bool {
 	n := 0
 	for _, ret := range core.Returns(fn) {
 		for _, res := range ret.Results {
-			if c.O.Of(res).Is("const", "nil") {
+			rt := c.O.Of(res)
+			if rt.Is("const", "nil") {
 				continue
+			}
+			if rt.Kind == "call" && (rt.Name == fn.String() || rt.Name == core.FuncName(fn)) {
+				continue // the answer of the same function about another declaration (an embedded interface): confined likewise
 			}
 			n++
 			d := c.ReachOf(ret)
@@ -701,6 +705,21 @@ func (c *Ctx) interfaceTypeErrorRule(rule string) {
 		r.Check(rule, FnKey(helper)+":error-position", c.InstrPos(ret), okPos, "the diagnostic does not start with the position of the type error")
 	}
 	r.Floor(rule, "error returns of the type-error helper", n, 1)
+	// the interfaces it embeds hand their methods on, and their losses with them: the helper asks itself about each
+	emb := false
+	for _, s := range c.CallsIn(helper, helper.String(), false) {
+		a := c.O.Of(s.Args()[len(s.Args())-1])
+		if a.IsCallTo("(*go/types.Named).Obj") && a.Contains(func(t *core.Term) bool { return t.IsCallTo("(*go/types.Interface).EmbeddedType") }) {
+			if v, isV := s.Instr.(ssa.Value); isV {
+				for _, ret := range core.Returns(helper) {
+					if ret.Results[len(ret.Results)-1] == v {
+						emb = c.ReachOf(ret).Implies(c.M(false, isNilCmp(func(t *core.Term) bool { return t.V == v })))
+					}
+				}
+			}
+		}
+	}
+	r.Check(rule, FnKey(helper)+":embedded-interfaces", c.Pos(helper.Pos()), emb, "the helper does not look at the declarations of the interfaces the converter interface embeds (asking itself about (*types.Named).Obj() of each EmbeddedType(i) and returning a non-nil answer): a duplicate method or an unresolved name inside an embedded interface still drops methods with exit 0")
 	// the scan is over all type errors and all declarations: no early success
 	isHelperNil := c.M(true, isNilCmp(func(t *core.Term) bool {
 		return t.Kind == "call" && (t.Name == helper.String() || t.Name == core.FuncName(helper)) && len(t.Args) >= 2 && t.Args[1].IsField("parser.intfEntry.intf")
@@ -920,5 +939,97 @@ func (c *Ctx) genericShapesRule(rule string, which string) {
 			r.Check(rule, sprintf("%s:success%d:receiver-without-type-arguments", FnKey(cf), i+1), c.InstrPos(ret), d.Implies(noRecv, noArgs), "a receiver with type arguments is accepted: `func (p *Page[int]) ToRow()` declares a type parameter named int; path: "+c.failing(d, noRecv, noArgs))
 		}
 		r.Floor(rule, "success returns of CreateFunction", len(rets), 1)
+	}
+}
+
+// lateShapeRules: obligations for the repairs F68–F71.
+func (c *Ctx) lateShapeRules(rule, which string) {
+	r := c.R
+	switch which {
+	case "lookup-components":
+		r.Rule(rule, "lookupType answers an object of an imported package only for a name of exactly two components (pkg.Name): with more, `:conv model.Conv.Extra ID` would resolve to model.Conv and the rest be ignored – exit 0 and a call that does not compile, or silently another function")
+		fn := c.MustMethod(rule, "/pkg/parser", "Parser", "lookupType")
+		if fn == nil {
+			return
+		}
+		isSplit := func(t *core.Term) bool { return t.IsCallTo("strings.Split") }
+		n := 0
+		for i, ret := range core.Returns(fn) {
+			if len(ret.Results) != 2 {
+				continue
+			}
+			t := c.O.Of(ret.Results[1])
+			if !t.Contains(func(s *core.Term) bool { return s.IsCallTo("(*go/types.Scope).Lookup") }) {
+				continue
+			}
+			n++
+			d := c.ReachOf(ret)
+			r.Check(rule, sprintf("%s:return%d:two-components", FnKey(fn), i+1), c.InstrPos(ret), d.Implies(c.atMost(lenOf(isSplit), 2)), "an object of an imported package is answered whatever follows the second component of the name; reach: "+d.Describe(c.O))
+		}
+		r.Floor(rule, "package-scope lookups answered by lookupType", n, 1)
+	case "loop-names":
+		r.Rule(rule, "CreateFunction succeeds only if no variable of the function is called i or e, or no assignment – at any depth of nested struct copies – is a slice copy written as a loop (`for i, e := range …` would hide the operand: on a recursive type the output compiles, leaves the destination empty and overwrites the source)")
+		cf := c.MustMethod(rule, "/pkg/builder", "FunctionBuilder", "CreateFunction")
+		if cf == nil {
+			return
+		}
+		var detector *ssa.Function
+		for _, fn := range c.P.Funcs() {
+			if p := pkgOf(fn); p == nil || p.Path() != mod+"/pkg/builder" || fn.Signature.Results().Len() != 1 || fn.Signature.Results().At(0).Type().String() != "bool" || len(fn.Params) != 1 {
+				continue
+			}
+			if !strings.HasSuffix(fn.Params[0].Type().String(), "generator/model.Assignment") {
+				continue
+			}
+			tr := c.Reach(fn).RetCond(0, true)
+			loop := c.M(true, assertOK("model.SliceLoopAssignment"))
+			cast := c.M(true, assertOK("model.SliceTypecastAssignment"))
+			nested := c.M(true, func(t *core.Term) bool {
+				return t.Kind == "call" && (t.Name == fn.String() || t.Name == core.FuncName(fn)) && t.Args[0].IsField("model.NestStruct.Contents")
+			})
+			hasLoop, hasCast, hasNest := false, false, false
+			for _, cj := range tr {
+				for _, l := range cj {
+					hasLoop = hasLoop || loop(l)
+					hasCast = hasCast || cast(l)
+					hasNest = hasNest || nested(l)
+				}
+			}
+			if len(tr) > 0 && tr.Implies(loop, cast, nested) && hasLoop && hasCast && hasNest {
+				detector = fn
+			}
+		}
+		r.Check(rule, FnKey(cf)+":loop-detector", c.Pos(cf.Pos()), detector != nil, "no function of pkg/builder tells whether a list of assignments contains, at any depth, a slice copy written as a loop (true ⇔ SliceLoopAssignment ∨ SliceTypecastAssignment ∨ the same below a NestStruct): the names i and e cannot be protected")
+		if detector == nil {
+			return
+		}
+		noLoop := c.M(false, func(t *core.Term) bool { return t.Kind == "call" && (t.Name == detector.String() || t.Name == core.FuncName(detector)) })
+		nameFree := func(name string) core.LitMatcher {
+			return c.M(false, func(t *core.Term) bool {
+				return (t.Kind == "lookup" || t.Kind == "lookup,ok" || t.Kind == "extract") && strings.Contains(t.String(), `const:"`+name+`"`) && strings.Contains(t.String(), "lookup")
+			})
+		}
+		for i, ret := range c.successReturns(cf) {
+			d := c.ReachOf(ret)
+			for _, nm := range []string{"i", "e"} {
+				r.Check(rule, sprintf("%s:success%d:name-%s-not-hidden", FnKey(cf), i+1, nm), c.InstrPos(ret), d.Implies(noLoop, nameFree(nm)), "a function with a variable called "+nm+" and a slice-copy loop is accepted; path: "+c.failing(d, noLoop, nameFree(nm)))
+			}
+		}
+	case "results":
+		r.Rule(rule, "parseMethod succeeds only if the method has at most two results and a second one is the error (Results().Len() ≤ 2 ∧ (Len() ≠ 2 ∨ IsErrorType(Results().At(1).Type()))): every other result would be dropped from the emitted function, which then differs from the declared signature")
+		fn := c.MustMethod(rule, "/pkg/parser", "Parser", "parseMethod")
+		if fn == nil {
+			return
+		}
+		isLenRes := func(t *core.Term) bool {
+			return t.IsCallTo("(*go/types.Tuple).Len") && t.Args[0].IsCallTo("(*go/types.Signature).Results")
+		}
+		secondErr := func(t *core.Term) bool {
+			return t.IsCallTo(fnIsErrorType) && t.Contains(func(s *core.Term) bool {
+				return s.IsCallTo("(*go/types.Tuple).At") && s.Args[1].Is("const", "1") && s.Args[0].IsCallTo("(*go/types.Signature).Results")
+			})
+		}
+		c.rejects(rule, fn, "at-most-two-results", "a method with more than two results is accepted and the extra results dropped", c.atMost(isLenRes, 2))
+		c.rejects(rule, fn, "second-result-is-error", "a method whose second result is not an error is accepted and that result dropped", c.notExactly(isLenRes, 2), c.M(true, secondErr))
 	}
 }
